@@ -35,13 +35,17 @@ Import Calc2.
 (* The coarse life-cycle automaton                                                                  *)
 (* ------------------------------------------------------------------------------------------------ *)
 
-Inductive key := KLeaf (id : nat) | KSched (c : nat).
+Inductive key := KLeaf (id : nat) | KSched (c : nat) | KAlloc (a : nat).   (* [stage 5] KAlloc a: the blocks of allocator a *)
 Inductive act := AStart | ATouch | ADtor.
 
-Definition lkb (k : key) (id : nat) : bool := match k with KLeaf i => Nat.eqb i id | KSched _ => false end.
-Definition skb (k : key) (c : nat) : bool := match k with KSched i => Nat.eqb i c | KLeaf _ => false end.
+Definition lkb (k : key) (id : nat) : bool := match k with KLeaf i => Nat.eqb i id | _ => false end.
+Definition skb (k : key) (c : nat) : bool := match k with KSched i => Nat.eqb i c | _ => false end.
+Definition akb (k : key) (a : nat) : bool := match k with KAlloc i => Nat.eqb i a | _ => false end.
+Definition is_alloc (k : key) : bool := match k with KAlloc _ => true | _ => false end.
 Definition lk (k : key) (id : nat) : nat := if lkb k id then 1 else 0.
 Definition sk (k : key) (c : nat) : nat := if skb k c then 1 else 0.
+Definition ak (k : key) (a : nat) : nat := if akb k a then 1 else 0.
+Definition alk (k : key) : nat := if is_alloc k then 1 else 0.
 
 (* what an event means for key k *)
 Definition ev_act (k : key) (t : tev) : option act :=
@@ -52,13 +56,15 @@ Definition ev_act (k : key) (t : tev) : option act :=
   | TLeafDtor id => if lkb k id then Some ADtor else None
   | TSchedStart _ c => if skb k c then Some AStart else None
   | TSchedDtor c => if skb k c then Some ADtor else None
+  | TAlloc a => if akb k a then Some AStart else None     (* a block is taken *)
+  | TFree a => if akb k a then Some ADtor else None       (* ... and returned *)
   | _ => None
   end.
 
 Inductive life (k : key) (m : nat) : nat -> nat -> list tev -> nat -> nat -> Prop :=
 | L_nil : forall r d, life k m r d [] r d
 | L_compl : forall r d tr r' d', life k m r (S d) tr r' d' -> life k m (S r) d tr r' d'
-| L_start : forall r d t tr r' d', ev_act k t = Some AStart -> r + d < m ->
+| L_start : forall r d t tr r' d', ev_act k t = Some AStart -> r + d < m \/ is_alloc k = true ->
     life k m (S r) d tr r' d' -> life k m r d (t :: tr) r' d'
 | L_touch : forall r d t tr r' d', ev_act k t = Some ATouch ->
     life k m (S r) d tr r' d' -> life k m (S r) d (t :: tr) r' d'
@@ -79,8 +85,11 @@ Proof.
 Qed.
 
 (* the total number of alive operation states never exceeds the capacity *)
-Lemma life_bound : forall k m r d tr r' d', life k m r d tr r' d' -> r + d <= m -> r' + d' <= m.
-Proof. intros k m r d tr r' d' H. induction H; intros B; auto; apply IHlife; lia. Qed.
+Lemma life_bound : forall k m r d tr r' d', life k m r d tr r' d' -> is_alloc k = false -> r + d <= m -> r' + d' <= m.
+Proof.
+  intros k m r d tr r' d' H A. induction H; intros B; auto; apply IHlife; try lia.
+  destruct H0 as [H0|H0]; [lia|congruence].
+Qed.
 
 (* ------------------------------------------------------------------------------------------------ *)
 (* The refined automaton: completions must be justified                                             *)
@@ -97,12 +106,14 @@ Definition ev_xact (k : key) (rho : nat -> bool) (t : tev) : option xact :=
   | TLeafDtor id => if lkb k id then Some XDtor else None
   | TSchedStart _ c => if skb k c then Some XStart else None
   | TSchedDtor c => if skb k c then Some XDtor else None
+  | TAlloc a => if akb k a then Some XStart else None
+  | TFree a => if akb k a then Some XDtor else None
   | _ => None
   end.
 
 (* is an external leaf event with this id addressed to key k?  (a queued schedule() item is addressed by
    its id, which the destruction event does not carry: every leaf event may concern a scheduler key) *)
-Definition key_addr (k : key) (id : nat) : bool := match k with KLeaf i => Nat.eqb i id | KSched _ => true end.
+Definition key_addr (k : key) (id : nat) : bool := match k with KLeaf i => Nat.eqb i id | _ => true end.
 
 Inductive lifeX (k : key) (m : nat) (rho : nat -> bool) (ext : bool)
   : nat -> nat -> nat -> list tev -> nat -> nat -> nat -> Prop :=
@@ -111,7 +122,7 @@ Inductive lifeX (k : key) (m : nat) (rho : nat -> bool) (ext : bool)
     lifeX k m rho ext r (S d) p tr r' d' p' -> lifeX k m rho ext (S r) d p tr r' d' p'
 | X_cb : forall r d p tr r' d' p',
     lifeX k m rho ext r (S d) p tr r' d' p' -> lifeX k m rho ext (S r) d (S p) tr r' d' p'
-| X_start : forall r d p t tr r' d' p', ev_xact k rho t = Some XStart -> r + d < m ->
+| X_start : forall r d p t tr r' d' p', ev_xact k rho t = Some XStart -> r + d < m \/ is_alloc k = true ->
     lifeX k m rho ext (S r) d p tr r' d' p' -> lifeX k m rho ext r d p (t :: tr) r' d' p'
 | X_touch : forall r d p t tr r' d' p', ev_xact k rho t = Some XTouch ->
     lifeX k m rho ext (S r) d p tr r' d' p' -> lifeX k m rho ext (S r) d p (t :: tr) r' d' p'
@@ -133,7 +144,7 @@ Lemma xact_act : forall k rho t,
 Proof.
   intros k rho t. destruct t; simpl; try reflexivity;
     try (destruct (lkb k id); try reflexivity; destruct (rho id); reflexivity);
-    destruct (skb k c); reflexivity.
+    try (destruct (skb k c); reflexivity); destruct (akb k a); reflexivity.
 Qed.
 
 (* forgetting the justification *)
@@ -173,7 +184,7 @@ Proof.
   - apply X_nil.
   - apply X_ext; [assumption|]. exact (IHlifeX x y z Hz).
   - apply X_cb. exact (IHlifeX x y z Hz).
-  - apply X_start; [assumption|lia|]. exact (IHlifeX x y z Hz).
+  - apply X_start; [assumption|destruct H0; [left; lia|right; assumption]|]. exact (IHlifeX x y z Hz).
   - apply X_touch; [assumption|]. exact (IHlifeX x y z Hz).
   - apply X_touchC; [assumption|]. exact (IHlifeX x y z Hz).
   - apply X_dtor; [assumption|]. exact (IHlifeX x y z Hz).
@@ -258,7 +269,14 @@ Fixpoint nd (e : sexpr) (st : ost) {struct e} : nat :=
       | _ => 0
       end
   | OHeld _ => 0
-  | ONode _ sa sb | OCompl sa sb =>
+  | ONode ns sa sb =>
+      match e with
+      | Un UAllocate s => ak k (e_alloc (n_env ns)) + nd s sa    (* [stage 5] the block of a started allocate *)
+      | Un _ s => nd s sa
+      | Bin _ a b => nd a sa + nd b sb
+      | _ => 0
+      end
+  | OCompl sa sb =>
       match e with
       | Un _ s => nd s sa
       | Bin _ a b => nd a sa + nd b sb
@@ -266,15 +284,29 @@ Fixpoint nd (e : sexpr) (st : ost) {struct e} : nat :=
       end
   end.
 
+(* the block held by a unary node itself *)
+Definition blk (kk : ukind) (st : ost) : nat :=
+  match st with
+  | ONode ns _ _ => match kk with UAllocate => ak k (e_alloc (n_env ns)) | _ => 0 end
+  | _ => 0
+  end.
+Definition ublk (kk : ukind) : nat := match kk with UAllocate => alk k | _ => 0 end.
+
 (* the number of leaves with key k in the expression *)
 Fixpoint cap (e : sexpr) : nat :=
   match e with
   | Leaf id | LeafN id | LeafR id _ => lk k id
   | Sched _ c => sk k c
-  | Un _ s => cap s
+  | Un kk s => ublk kk + cap s
   | Bin _ a b => cap a + cap b
   | _ => 0
   end.
+
+Lemma ak_le : forall a, ak k a <= alk k.
+Proof. intros. unfold ak, alk, akb, is_alloc. destruct k; try lia. destruct (Nat.eqb a0 a); lia. Qed.
+
+Lemma blk_le : forall kk st, blk kk st <= ublk kk.
+Proof. intros kk st. destruct st; simpl; try lia. destruct kk; simpl; try lia. apply ak_le. Qed.
 
 Lemma nr_fin : forall e, nr e OFin = 0.
 Proof. destruct e; reflexivity. Qed.
@@ -283,18 +315,20 @@ Proof. destruct e; reflexivity. Qed.
 
 Lemma cnt_le_cap : forall e st, nr e st + nd e st <= cap e.
 Proof.
-  induction e as [v|x| |n|id|id|id c|id lvl| |kk s IHs|kk a IHa b IHb]; intros st;
-    destruct st as [|cc sn|ns sa sb|sa sb|v']; simpl; try lia; try (destruct cc; lia);
-    try apply IHs.
+  induction e as [v|x| |n|id|id|id c|id lvl| |id|kk s IHs|kk a IHa b IHb]; intros st;
+    destruct st as [|cc sn|ns sa sb|sa sb|v']; simpl; try lia; try (destruct cc; lia).
+  - specialize (IHs sa). destruct kk; simpl; try lia. pose proof (ak_le (e_alloc (n_env ns))). lia.
+  - specialize (IHs sa). lia.
   - specialize (IHa sa). specialize (IHb sb). lia.
   - specialize (IHa sa). specialize (IHb sb). lia.
 Qed.
 
 Lemma done_nr : forall e st, done_st e st -> nr e st = 0.
 Proof.
-  induction e as [v|x| |n|id|id|id c|id lvl| |kk s IHs|kk a IHa b IHb]; intros st H;
+  induction e as [v|x| |n|id|id|id c|id lvl| |id|kk s IHs|kk a IHa b IHb]; intros st H;
     destruct st as [|[|] sn|ns sa sb|sa sb|v']; simpl in *; try contradiction; try reflexivity.
-  - destruct sb; try contradiction. auto.
+  - destruct kk; try contradiction. destruct sb; try contradiction. auto.
+  - destruct sb; try (destruct kk; contradiction). destruct kk; auto.
   - destruct H as (Ha & Hb). rewrite (IHa _ Ha), (IHb _ Hb). reflexivity.
 Qed.
 
@@ -306,12 +340,21 @@ Proof.
   { intros id m r d p. exists p. unfold lk. destruct (lkb k id) eqn:E; simpl.
     - apply X_dtor; [simpl; rewrite E; reflexivity|apply X_nil].
     - apply X_skip; [simpl; rewrite E; reflexivity|apply X_nil]. }
-  induction e as [v|x| |n|id|id|id c|id lvl| |kk s IHs|kk a IHa b IHb]; intros st H m r d;
-    destruct st as [|[|] sn|ns sa sb|sa sb|v']; simpl in *; try contradiction; try apply Q_nil; try apply LF.
+  induction e as [v|x| |n|id|id|id c|id lvl| |id|kk s IHs|kk a IHa b IHb]; intros st H m r d;
+    destruct st as [|[|] sn|ns sa sb|sa sb|v']; simpl in *; try contradiction; try apply Q_nil; try apply LF;
+    try (destruct kk; contradiction); try (destruct kk; apply Q_nil).
   - intros p. exists p. unfold sk. destruct (skb k c) eqn:E; simpl.
     + apply X_dtor; [simpl; rewrite E; reflexivity|apply X_nil].
     + apply X_skip; [simpl; rewrite E; reflexivity|apply X_nil].
-  - destruct sb; try contradiction. apply IHs. exact H.
+  - destruct kk; try contradiction. destruct sb; try contradiction.
+    apply Q_app with (r1 := r) (d1 := ak k (e_alloc (n_env ns)) + d).
+    + replace (ak k (e_alloc (n_env ns)) + nd s sa + d) with (nd s sa + (ak k (e_alloc (n_env ns)) + d)) by lia.
+      apply IHs. exact H.
+    + intros p. exists p. unfold ak. destruct (akb k (e_alloc (n_env ns))) eqn:E; simpl.
+      * apply X_dtor; [simpl; rewrite E; reflexivity|apply X_nil].
+      * apply X_skip; [simpl; rewrite E; reflexivity|apply X_nil].
+  - destruct sb; try (destruct kk; contradiction). assert (done_st s sa) as H' by (destruct kk; exact H).
+    destruct kk; apply IHs; exact H'.
   - destruct H as (Ha & Hb). destruct (dtor_b_first kk).
     + apply Q_app with (r1 := r) (d1 := nd a sa + d).
       * replace (nd a sa + nd b sb + d) with (nd b sb + (nd a sa + d)) by lia. apply IHb. exact Hb.
@@ -350,15 +393,27 @@ Proof. intros. apply Q_skips. assumption. Qed.
 
 Lemma nr_un : forall kk s st, nr (Un kk s) st = nr s (kid st).
 Proof. intros. destruct st; simpl; try reflexivity; destruct s; reflexivity. Qed.
-Lemma nd_un : forall kk s st, nd (Un kk s) st = nd s (kid st).
-Proof. intros. destruct st; simpl; try reflexivity; destruct s; reflexivity. Qed.
+Lemma nd_un : forall kk s st, nd (Un kk s) st = blk kk st + nd s (kid st).
+Proof. intros. destruct st; simpl; try reflexivity; try (destruct s; reflexivity); destruct kk; reflexivity. Qed.
 Lemma nr_bin : forall kk a b st, nr (Bin kk a b) st = nr a (kid st) + nr b (kid2 st).
 Proof. intros. destruct st; simpl; try reflexivity; destruct a, b; reflexivity. Qed.
 Lemma nd_bin : forall kk a b st, nd (Bin kk a b) st = nd a (kid st) + nd b (kid2 st).
 Proof. intros. destruct st; simpl; try reflexivity; destruct a, b; reflexivity. Qed.
 
-Lemma lifeS_un : forall kk s st tr st', lifeS s (kid st) tr (kid st') -> lifeS (Un kk s) st tr st'.
-Proof. intros kk s st tr st' H. unfold lifeS in *. rewrite !nr_un, !nd_un. exact H. Qed.
+Lemma lifeS_un : forall kk s st tr st', lifeS s (kid st) tr (kid st') -> blk kk st = blk kk st' ->
+  lifeS (Un kk s) st tr st'.
+Proof.
+  intros kk s st tr st' H B. unfold lifeS in *. rewrite !nr_un, !nd_un, <- B.
+  change (cap (Un kk s)) with (ublk kk + cap s).
+  apply (Q_frame_l _ _ _ _ _ _ _ _ _ H 0 (blk kk st) (ublk kk)). simpl. apply blk_le.
+Qed.
+
+Lemma blk_eq : forall kk ns a b ns' a' b', e_alloc (n_env ns) = e_alloc (n_env ns') ->
+  blk kk (ONode ns a b) = blk kk (ONode ns' a' b').
+Proof. intros kk ns a b ns' a' b' E. simpl. rewrite E. reflexivity. Qed.
+
+Lemma blk_other : forall kk st, kk <> UAllocate -> blk kk st = 0.
+Proof. intros kk st H. destruct st; simpl; try reflexivity. destruct kk; try reflexivity. congruence. Qed.
 
 Lemma lifeS_bin : forall kk a b st tr st',
   lifeP a b (kid st) (kid2 st) tr (kid st') (kid2 st') -> lifeS (Bin kk a b) st tr st'.
@@ -402,6 +457,9 @@ Section Helpers.
 Variable k : key.
 Variable rho : nat -> bool.
 Variable ext : bool.
+(* [stage 5] a block counts as completed (alive, not running) from the moment it is taken: for the keys of
+   allocators that silent step is always allowed *)
+Hypothesis Hal : is_alloc k = true -> ext = true.
 
 (* the events of a result take the automaton from the state before the call to the state after *)
 Definition Lgood (e : sexpr) (st0 : ost) (r : res) : Prop := lifeS k rho ext e st0 (snd (fst r)) (fst (fst r)).
@@ -441,12 +499,136 @@ Ltac chainS :=
 Lemma un_result_skips : forall kk o, Forall (fun t => ev_xact k rho t = None) (fst (un_result kk o)).
 Proof. intros kk o. destruct kk, o; simpl; repeat constructor. Qed.
 
-Lemma un_done_L : forall kk s st0 sc tr o, done_st s sc -> lifeS k rho ext s (kid st0) tr sc ->
+Ltac blk0 := simpl; first [reflexivity | apply blk_other; solve [assumption | discriminate]
+                           | match goal with |- context [blk _ _ ?st] => destruct st; reflexivity end].
+
+Lemma un_done_L : forall kk s st0 sc tr o, kk <> UAllocate -> done_st s sc -> lifeS k rho ext s (kid st0) tr sc ->
   Lgood (Un kk s) st0 (un_done kk s sc tr o).
 Proof.
-  intros kk s st0 sc tr o D H. unfold un_done. pose proof (un_result_skips kk o) as SK.
+  intros kk s st0 sc tr o NA D H. unfold un_done. pose proof (un_result_skips kk o) as SK.
   destruct (un_result kk o) as [tr2 o']. simpl in SK.
-  destruct (un_eager kk o); unfold Lgood; simpl; apply lifeS_un; chainS.
+  destruct (un_eager kk o); unfold Lgood; simpl; (apply lifeS_un; [chainS|blk0]).
+Qed.
+
+(* ---- [stage 5] blocks: connect, unwinding, the start of an allocate ---- *)
+Definition is_free (t : tev) : Prop := match t with TFree _ => True | _ => False end.
+Fixpoint frees (tr : list tev) : nat :=
+  match tr with [] => 0 | TFree a :: r => ak k a + frees r | _ :: r => frees r end.
+
+Lemma frees_app : forall l1 l2, frees (l1 ++ l2) = frees l1 + frees l2.
+Proof. induction l1 as [|t l1 IH]; simpl; intros; auto. destruct t; rewrite ?IH; auto. lia. Qed.
+
+Lemma unw_frees : forall e al, Forall is_free (unw e al).
+Proof.
+  induction e as [v|x| |n|id|id|id c|id lvl| |id|kk s IHs|kk a IHa b IHb]; intros al; simpl; try constructor.
+  - destruct kk; auto. apply Forall_app. split; [auto|repeat constructor].
+  - destruct kk; auto; apply Forall_app; auto.
+Qed.
+
+Lemma akb_alloc : forall a, akb k a = true -> is_alloc k = true.
+Proof. intros a. unfold akb, is_alloc. destruct k; auto. Qed.
+
+Lemma free1_life : forall a m r d, lifeQ k m rho ext r (ak k a + d) [TFree a] r d.
+Proof.
+  intros a m r d p. exists p. unfold ak. destruct (akb k a) eqn:E; simpl.
+  - apply X_dtor; [simpl; rewrite E; reflexivity|apply X_nil].
+  - apply X_skip; [simpl; rewrite E; reflexivity|apply X_nil].
+Qed.
+
+Lemma free_life : forall tr, Forall is_free tr -> forall m r d, lifeQ k m rho ext r (frees tr + d) tr r d.
+Proof.
+  intros tr H. induction H as [|t tr Ht H IH]; intros m r d; simpl; [apply Q_nil|].
+  destruct t; simpl in Ht; try contradiction.
+  change (TFree a :: tr) with ([TFree a] ++ tr). apply Q_app with (r1 := r) (d1 := frees tr + d); [|apply IH].
+  rewrite <- Nat.add_assoc. apply free1_life.
+Qed.
+
+Lemma alloc_life : forall a m r d, lifeQ k m rho ext r d [TAlloc a] r (ak k a + d).
+Proof.
+  intros a m r d p. exists p. unfold ak. destruct (akb k a) eqn:E; simpl.
+  - apply X_start; [simpl; rewrite E; reflexivity|right; eapply akb_alloc; eassumption|].
+    apply X_ext; [apply Hal; eapply akb_alloc; eassumption|apply X_nil].
+  - apply X_skip; [simpl; rewrite E; reflexivity|apply X_nil].
+Qed.
+
+Lemma Q_cast : forall m r d tr r' d' d0 d0', lifeQ k m rho ext r d tr r' d' -> d = d0 -> d' = d0' ->
+  lifeQ k m rho ext r d0 tr r' d0'.
+Proof. intros. subst. assumption. Qed.
+
+(* connect(e): the blocks taken are held afterwards (they are the ones unwinding returns), or, if connect
+   threw, all returned *)
+Lemma conn_life : forall e al m r d,
+  lifeQ k m rho ext r d (fst (conn e al)) r ((if snd (conn e al) then 0 else frees (unw e al)) + d).
+Proof.
+  induction e as [v|x| |n|id|id|id c|id lvl| |id|kk s IHs|kk a IHa b IHb]; intros al m r d;
+    try (simpl; apply Q_nil).
+  - destruct kk; try (simpl; apply IHs).
+    simpl. specialize (IHs al m r (ak k al + d)). destruct (conn s al) as [tr th]. simpl in *.
+    change (TAlloc al :: tr ++ (if th then [TFree al] else [])) with ([TAlloc al] ++ tr ++ (if th then [TFree al] else [])).
+    eapply Q_app; [apply alloc_life|]. eapply Q_app; [exact IHs|]. destruct th.
+    + apply free1_life.
+    + rewrite frees_app. simpl. eapply Q_cast; [apply Q_nil|reflexivity|lia].
+  - destruct kk; try (simpl; apply IHa); try (simpl; apply Q_nil).
+    + (* when_all: b first *)
+      simpl. pose proof (IHb al m r d) as Hb. destruct (conn b al) as [trb thb]. simpl in Hb.
+      destruct thb; [exact Hb|].
+      pose proof (IHa al m r (frees (unw b al) + d)) as Ha. destruct (conn a al) as [tra tha]. simpl in Ha.
+      destruct tha; simpl.
+      * eapply Q_app; [exact Hb|]. eapply Q_app; [exact Ha|]. apply free_life. apply unw_frees.
+      * eapply Q_app; [exact Hb|]. eapply Q_cast; [exact Ha|reflexivity|]. rewrite frees_app. lia.
+    + (* stop_when: a first *)
+      simpl. pose proof (IHa al m r d) as Ha. destruct (conn a al) as [tra tha]. simpl in Ha.
+      destruct tha; [exact Ha|].
+      pose proof (IHb al m r (frees (unw a al) + d)) as Hb. destruct (conn b al) as [trb thb]. simpl in Hb.
+      destruct thb; simpl.
+      * eapply Q_app; [exact Ha|]. eapply Q_app; [exact Hb|]. apply free_life. apply unw_frees.
+      * eapply Q_app; [exact Ha|]. eapply Q_cast; [exact Hb|reflexivity|]. rewrite frees_app. lia.
+Qed.
+
+Lemma conn_throws : forall e al, snd (conn e al) = cthrows e.
+Proof.
+  induction e as [v|x| |n|id|id|id c|id lvl| |id|kk s IHs|kk a IHa b IHb]; intros al; simpl; try reflexivity.
+  - destruct kk; try apply IHs. specialize (IHs al). destruct (conn s al) as [tr th]. exact IHs.
+  - destruct kk; try apply IHa; try reflexivity.
+    + specialize (IHb al). specialize (IHa al). destruct (conn b al) as [trb thb]. simpl in IHb. rewrite <- IHb, <- IHa.
+      destruct thb; simpl; [rewrite orb_true_r; reflexivity|]. destruct (conn a al) as [tra tha]. simpl.
+      destruct tha; reflexivity.
+    + specialize (IHb al). specialize (IHa al). destruct (conn a al) as [tra tha]. simpl in IHa. rewrite <- IHb, <- IHa.
+      destruct tha; simpl; [reflexivity|]. destruct (conn b al) as [trb thb]. simpl.
+      destruct thb; reflexivity.
+Qed.
+
+(* a late connect that throws: whatever it took it returned; nothing was started *)
+Lemma sconn_life : forall e al m r d, sthrows e = true -> lifeQ k m rho ext r d (sconn e al) r d.
+Proof.
+  intros e al m r d H.
+  assert (G : forall e', cthrows e' = true -> lifeQ k m rho ext r d (fst (conn e' al)) r d).
+  { intros e' C. pose proof (conn_life e' al m r d) as L. rewrite conn_throws, C in L. exact L. }
+  unfold sthrows in H. destruct e as [v|x| |n|id|id|id c|id lvl| |id|kk s|kk a b]; simpl in H; try discriminate;
+    try (apply G; simpl; rewrite orb_false_r in H; exact H).
+  - apply G. reflexivity.
+  - destruct kk; try (unfold sconn; apply G; simpl; rewrite orb_false_r in H; exact H).
+    unfold sconn. apply G. simpl. exact H.
+Qed.
+
+Lemma un_own_not_alloc : forall kk x, un_own kk && x = true -> kk <> UAllocate.
+Proof. intros kk x H E. subst. discriminate. Qed.
+
+Lemma un_pre_nil : forall kk en, kk <> UAllocate -> un_pre kk en = [].
+Proof. intros kk en H. destruct kk; try reflexivity. congruence. Qed.
+
+(* the start of a unary node: allocate takes its block from the allocator of the receiver's environment *)
+Lemma un_start_L : forall kk s en sc x tr0 r, lifeS k rho ext s OFin tr0 sc ->
+  Lgood (Un kk s) OFin (ONode (un_nst kk en) sc x, un_pre kk en ++ tr0, r).
+Proof.
+  intros kk s en sc x tr0 r H. unfold Lgood, lifeS in *. simpl fst. simpl snd.
+  rewrite !nr_un, !nd_un. simpl kid. rewrite nr_fin, nd_fin in *.
+  change (cap k (Un kk s)) with (ublk k kk + cap k s).
+  destruct kk; try exact (Q_frame_l _ _ _ _ _ _ _ _ _ H 0 0 0 (le_n 0)).
+  simpl. change (TAlloc (e_alloc en) :: tr0) with ([TAlloc (e_alloc en)] ++ tr0).
+  eapply Q_app; [eapply Q_cast; [apply alloc_life|reflexivity|reflexivity]|].
+  pose proof (Q_frame_l _ _ _ _ _ _ _ _ _ H 0 (ak k (e_alloc en)) (alk k) (ak_le k _)) as F.
+  eapply Q_cast; [exact F|simpl; lia|reflexivity].
 Qed.
 
 Lemma seq_pass_L : forall kk a b st0 sa tr o, done_st a sa -> lifeP k rho ext a b (kid st0) (kid2 st0) tr sa OFin ->
@@ -492,16 +674,19 @@ Qed.
 Lemma rep_loop_L : forall s r0 rest i, GL s r0 ->
   match rep_loop s r0 rest i with
   | (_, (sc', tr', r')) =>
-      match r' with None => lifeS k rho ext s OFin tr' sc' | Some _ => lifeS k rho ext s OFin tr' (kid sc') end
+      match r' with
+      | None => lifeS k rho ext s OFin tr' sc'
+      | Some _ => lifeS k rho ext s OFin tr' (kid sc') /\ forall kk, blk k kk sc' = 0
+      end
   end.
 Proof.
   intros s [[sc tr] r] rest. induction rest as [|x rest IH]; intros i (G & H); simpl.
-  - chainS.
-  - destruct x; [chainS|]. unfold Lgood in H; simpl in H. unfold good2 in G.
-    destruct r as [[v|x| |v|v]|]; try solve [chainS].
+  - split; [chainS|reflexivity].
+  - destruct x; [split; [chainS|reflexivity]|]. unfold Lgood in H; simpl in H. unfold good2 in G.
+    destruct r as [[v|x| |v|v]|]; try solve [chainS | split; [chainS|reflexivity]].
     specialize (IH (S i) (conj G H)).
     destruct (rep_loop s (sc, tr, Some (OVal v)) rest (S i)) as [i' [[sc' tr'] r']].
-    destruct r'; chainS.
+    destruct r'; [destruct IH as (IH & B); split; [chainS|exact B]|chainS].
 Qed.
 
 Lemma rep_done_L : forall l s st0 ns sc tr o r0,
@@ -509,10 +694,11 @@ Lemma rep_done_L : forall l s st0 ns sc tr o r0,
   Lgood (Un (URepeat l) s) st0 (rep_done l s ns sc tr o r0).
 Proof.
   intros l s st0 ns sc tr o r0 D H G. unfold rep_done.
-  destruct o; try solve [unfold Lgood; simpl; apply lifeS_un; chainS];
+  destruct o; try solve [unfold Lgood; simpl; (apply lifeS_un; [chainS|blk0])];
   pose proof (rep_loop_L s r0 (skipn (n_iter ns) l) (n_iter ns) G) as R;
   destruct (rep_loop s r0 (skipn (n_iter ns) l) (n_iter ns)) as [i' [[sc' tr'] r']];
-  destruct r'; unfold Lgood; simpl; apply lifeS_un; chainS.
+  (destruct r'; [destruct R as (R & B)|]); unfold Lgood; simpl;
+  (apply lifeS_un; [chainS|try rewrite B; blk0]).
 Qed.
 
 (* retry_when *)
@@ -614,7 +800,7 @@ Ltac chainS :=
 
 Opaque conc_child_done un_result after_first after_second is_seq un_done seq_pass seq_final conc_reap
        finish_conc rep_done retry_a_done retry_b_done un_own un_nst un_env fired res_err dtor
-       thrown un_in bin_in tmode un_throw bin_throw un_catch bin_catch.
+       thrown un_in bin_in tmode un_throw bin_throw un_catch bin_catch sthrows sconn un_pre.
 Arguments good2 e r : simpl never.
 Arguments Lgood k rho ext e st0 r : simpl never.
 Arguments GLs k rho ext e st0 r : simpl never.
@@ -664,6 +850,7 @@ Ltac lstep_on k rho ext x :=
       destruct (thrown_some s t oc) as [E|(? & ? & E)]; [rewrite E|subst; rewrite E]
   | un_throw _ => destruct x
   | bin_throw _ _ => destruct x
+  | sthrows _ => destruct x eqn:?
   | after_first _ _ _ => destruct x as [?|[? ?]]
   | un_result _ _ => destruct x as [? ?]
   | own_stop _ => destruct x eqn:?
@@ -678,12 +865,17 @@ Ltac lstep :=
   | |- Lgood ?k ?rho ?ext _ _ ?t => let x := head_scrut t in lstep_on k rho ext x
   end.
 
+Ltac blkeq :=
+  simpl; repeat match goal with |- context [if ?b then _ else _] => destruct b end; simpl; reflexivity.
+
 Ltac gl_tuple := split; [unfold good2; simpl; solve [auto]|unfold Lgood; simpl; solve [auto]].
 
 Ltac finish_L :=
-  simpl; rw_flags; simpl;
+  simpl; rw_flags; simpl; rewrite ?un_pre_nil by discriminate; simpl;
   first
-    [ apply un_done_L; [solve [auto] | solve [chainS]]
+    [ solve [unfold Lgood, lifeS; simpl; apply sconn_life; assumption]
+    | apply un_start_L; [assumption | solve [chainS]]
+    | apply un_done_L; [first [discriminate | eapply un_own_not_alloc; eassumption] | solve [auto] | solve [chainS]]
     | apply rep_done_L; [solve [auto] | solve [chainS] | solve [auto | gl_tuple]]
     | apply seq_pass_L; [solve [auto] | solve [chainP]]
     | apply seq_final_L; [solve [auto] | solve [chainP]]
@@ -697,7 +889,7 @@ Ltac finish_L :=
         [ let X := fresh in intros X; first [ exfalso; apply X; reflexivity | split; solve [auto] ]
         | solve [chainP] ]
     | unfold Lgood; simpl;
-      first [ apply lifeS_un; solve [chainS] | apply lifeS_bin; solve [chainP] | solve [chainS] ] ].
+      first [ apply lifeS_un; [solve [chainS] | solve [blkeq]] | apply lifeS_bin; solve [chainP] | solve [chainS] ] ].
 
 (* ------------------------------------------------------------------------------------------------ *)
 (* start / stop / leafev: the events of every call are a legal continuation of every life cycle      *)
@@ -725,6 +917,11 @@ Proof. destruct k; simpl; auto; discriminate. Qed.
 Lemma skb_addr : forall k c id, skb k c = true -> key_addr k id = true.
 Proof. destruct k; simpl; auto; discriminate. Qed.
 
+(* the start of an expression whose (late) connect throws *)
+Ltac sthrow_solve :=
+  split; [unfold good2; solve [exact I | apply done_fin]
+         |unfold Lgood, lifeS; simpl; apply sconn_life; assumption].
+
 Section LeafL.
 Variable k : key.
 Variable rho : nat -> bool.
@@ -734,7 +931,7 @@ Lemma XL_start : forall id m (x1 x2 : bool) q0 q1 sch cx, lk k id <= m ->
   lifeQ k m rho ext 0 0 [TLeafStart id x1 x2 q0 q1 sch cx] (lk k id) 0.
 Proof.
   intros id m x1 x2 q0 q1 sch cx H p. exists p. unfold lk in *. destruct (lkb k id) eqn:E.
-  - apply X_start; [simpl; rewrite E; reflexivity|lia|apply X_nil].
+  - apply X_start; [simpl; rewrite E; reflexivity|left; lia|apply X_nil].
   - apply X_skip; [simpl; rewrite E; reflexivity|apply X_nil].
 Qed.
 
@@ -782,41 +979,52 @@ Ltac leaf_solveX :=
      | |- lifeQ _ _ _ _ _ _ (?a :: ?b :: ?l) _ _ => change (a :: b :: l) with ([a] ++ (b :: l)); eapply Q_app
      end ].
 
-Lemma life_all : forall k rho ext e, Rok rho e ->
+Lemma life_all : forall k rho ext e, (is_alloc k = true -> ext = true) -> Rok rho e ->
   (forall en cx, GLs k rho ext e OFin (start e en cx)) /\
   (forall st cx, wf2 e st -> GLs k rho ext e st (stop e st cx)) /\
   (forall st id o cx, wf2 e st -> (key_addr k id = true -> ext = true) ->
      GLs k rho ext e st (fst (leafev e st id o cx))).
 Proof.
-  intros k rho ext.
-  induction e as [v|x| |n|id|id|id c|id lvl| |kk s IHs|kk a IHa b IHb]; intros Hr.
-  - repeat split; intros; simpl in *; try contradiction; try exact I; apply Q_nil.
-  - repeat split; intros; simpl in *; try contradiction; try exact I; apply Q_nil.
-  - repeat split; intros; simpl in *; try contradiction; try exact I; apply Q_nil.
-  - repeat split; intros; simpl in *; try contradiction; try exact I; apply Q_nil.
+  intros k rho ext e Hal. revert e.
+  assert (TRIV : forall e, (forall st, ~ wf2 e st) ->
+            (forall en cx, exists o, start e en cx = if sthrows e then (OFin, sconn e (e_alloc en), Some (OErr ccode))
+                                                   else (OFin, [], Some o)) ->
+            (forall en cx, GLs k rho ext e OFin (start e en cx)) /\
+            (forall st cx, wf2 e st -> GLs k rho ext e st (stop e st cx)) /\
+            (forall st id o cx, wf2 e st -> (key_addr k id = true -> ext = true) ->
+               GLs k rho ext e st (fst (leafev e st id o cx)))).
+  { intros e NW ST. split; [|split]; try (intros; exfalso; eapply NW; eassumption).
+    intros en cx. destruct (ST en cx) as (o & E). rewrite E. destruct (sthrows e) eqn:TH; [sthrow_solve|].
+    split; [unfold good2; apply done_fin|]. unfold Lgood, lifeS. simpl. apply Q_nil. }
+  induction e as [v|x| |n|id|id|id c|id lvl| |id|kk s IHs|kk a IHa b IHb]; intros Hr.
+  - apply TRIV; [intros st; destruct st; simpl; auto|intros; eexists; reflexivity].
+  - apply TRIV; [intros st; destruct st; simpl; auto|intros; eexists; reflexivity].
+  - apply TRIV; [intros st; destruct st; simpl; auto|intros; eexists; reflexivity].
+  - apply TRIV; [intros st; destruct st; simpl; auto|intros; eexists; reflexivity].
   - (* Leaf *)
     split; [|split].
-    + intros en cx. simpl. destruct (e_stopped en); leaf_solveX.
+    + intros en cx. simpl. destruct (sthrows _) eqn:TH; [sthrow_solve|]. destruct (e_stopped en); leaf_solveX.
     + intros st cx H. destruct st as [|[|] [|]| | |]; simpl in *; try contradiction; leaf_solveX.
     + intros st id0 o cx H Hx. destruct st as [|[|] sn| | |]; simpl in *; try contradiction.
       destruct (Nat.eqb id0 id) eqn:E; [apply Nat.eqb_eq in E; subst; assert (lkb k id = true -> ext = true) by (intros L; apply Hx, lkb_addr, L)|]; leaf_solveX.
   - (* LeafN *)
     assert (rho id = true) as R by (apply Hr; simpl; auto).
     split; [|split].
-    + intros en cx. simpl. destruct (e_stopped en); leaf_solveX.
+    + intros en cx. simpl. destruct (sthrows _) eqn:TH; [sthrow_solve|]. destruct (e_stopped en); leaf_solveX.
     + intros st cx H. destruct st as [|[|] [|]| | |]; simpl in *; try contradiction; leaf_solveX.
     + intros st id0 o cx H Hx. destruct st as [|[|] [|]| | |]; simpl in *; try contradiction.
       destruct (Nat.eqb id0 id) eqn:E; [apply Nat.eqb_eq in E; subst; assert (lkb k id = true -> ext = true) by (intros L; apply Hx, lkb_addr, L)|]; leaf_solveX.
   - (* Sched *)
     assert (ST : forall m, sk k c <= m -> lifeQ k m rho ext 0 0 [TSchedStart id c] (sk k c) 0).
     { intros m Hm p. exists p. unfold sk in *. destruct (skb k c) eqn:E.
-      - apply X_start; [simpl; rewrite E; reflexivity|lia|apply X_nil].
+      - apply X_start; [simpl; rewrite E; reflexivity|left; lia|apply X_nil].
       - apply X_skip; [simpl; rewrite E; reflexivity|apply X_nil]. }
     assert (CO : forall m id0, (key_addr k id0 = true -> ext = true) -> lifeQ k m rho ext (sk k c) 0 [] 0 (sk k c)).
     { intros m id0 Hx p. exists p. unfold sk. destruct (skb k c) eqn:E; [|apply X_nil].
       apply X_ext; [apply Hx; eapply skb_addr; exact E|apply X_nil]. }
     split; [|split].
-    + intros en cx. simpl. unfold GLs, good2, Lgood, lifeS; simpl. split; [destruct (e_stopped en); exact I|].
+    + intros en cx. simpl. destruct (sthrows _) eqn:TH; [sthrow_solve|].
+      unfold GLs, good2, Lgood, lifeS; simpl. split; [destruct (e_stopped en); exact I|].
       apply ST. apply le_n.
     + intros st cx H. destruct st as [|[|] [|]| | |]; simpl in *; try contradiction;
         unfold GLs, good2, Lgood, lifeS; simpl; (split; [exact I|apply Q_nil]).
@@ -825,15 +1033,18 @@ Proof.
         [apply (CO _ id0 Hx)|apply Q_nil].
   - (* LeafR *)
     split; [|split].
-    + intros en cx. simpl. destruct (e_stopped en); leaf_solveX.
+    + intros en cx. simpl. destruct (sthrows _) eqn:TH; [sthrow_solve|]. destruct (e_stopped en); leaf_solveX.
     + intros st cx H. destruct st as [|[|] [|]| | |]; simpl in *; try contradiction; leaf_solveX.
     + intros st id0 o cx H Hx. destruct st as [|[|] sn| | |]; simpl in *; try contradiction.
       * destruct (Nat.eqb id0 id) eqn:E; [apply Nat.eqb_eq in E; subst; assert (lkb k id = true -> ext = true) by (intros L; apply Hx, lkb_addr, L); destruct o|]; leaf_solveX.
       * destruct (Nat.eqb id0 id) eqn:E; [apply Nat.eqb_eq in E; subst; assert (lkb k id = true -> ext = true) by (intros L; apply Hx, lkb_addr, L)|]; leaf_solveX.
   - (* StopIf *)
-    repeat split; intros; simpl in *; try contradiction; try exact I; apply Q_nil.
+    apply TRIV; [intros st; destruct st; simpl; auto|intros; eexists; reflexivity].
+  - (* LeafC *)
+    apply TRIV; [intros st; destruct st; simpl; auto|intros; exists (OErr ccode); reflexivity].
   - (* Un *)
-    destruct (IHs Hr) as (IH1 & IH2 & IH3). split; [|split].
+    assert (Rok rho s) as Hrs by exact Hr.
+    destruct (IHs Hrs) as (IH1 & IH2 & IH3). split; [|split].
     + intros en cx. split; [apply spec_all|]. repeat lstep; finish_L.
     + intros st cx H. split; [apply spec_all; exact H|].
       destruct st as [| |ns sc sx| |]; simpl in H; try contradiction.
@@ -871,7 +1082,7 @@ Qed.
 
 Transparent conc_child_done un_result after_first after_second is_seq un_done seq_pass seq_final conc_reap
        finish_conc rep_done retry_a_done retry_b_done un_own un_nst un_env fired res_err dtor
-       thrown un_in bin_in tmode un_throw bin_throw un_catch bin_catch.
+       thrown un_in bin_in tmode un_throw bin_throw un_catch bin_catch sthrows sconn un_pre.
 Arguments good2 e r : simpl nomatch.
 
 (* the canonical rho of an expression: its stop-reactive leaf ids *)
@@ -884,18 +1095,21 @@ Qed.
 
 (* the three entry points, stated separately.  start and stop are not addressed to any key (ext = false):
    operation states complete in them only from their own stop callback *)
-Theorem start_life : forall k rho ext e en cx st tr r, Rok rho e ->
+Lemma alloc_addr : forall k id, is_alloc k = true -> key_addr k id = true.
+Proof. destruct k; simpl; auto; discriminate. Qed.
+
+Theorem start_life : forall k rho ext e en cx st tr r, (is_alloc k = true -> ext = true) -> Rok rho e ->
   start e en cx = (st, tr, r) -> lifeS k rho ext e OFin tr st.
 Proof.
-  intros k rho ext e en cx st tr r R H. pose proof (proj2 (proj1 (life_all k rho ext e R) en cx)) as L.
+  intros k rho ext e en cx st tr r A R H. pose proof (proj2 (proj1 (life_all k rho ext e A R) en cx)) as L.
   unfold Lgood in L. rewrite H in L. exact L.
 Qed.
 
-Theorem stop_life : forall k rho ext e st0 cx st tr r, Rok rho e -> wf2 e st0 ->
+Theorem stop_life : forall k rho ext e st0 cx st tr r, (is_alloc k = true -> ext = true) -> Rok rho e -> wf2 e st0 ->
   stop e st0 cx = (st, tr, r) -> lifeS k rho ext e st0 tr st.
 Proof.
-  intros k rho ext e st0 cx st tr r R W H.
-  pose proof (proj2 (proj1 (proj2 (life_all k rho ext e R)) st0 cx W)) as L.
+  intros k rho ext e st0 cx st tr r A R W H.
+  pose proof (proj2 (proj1 (proj2 (life_all k rho ext e A R)) st0 cx W)) as L.
   unfold Lgood in L. rewrite H in L. exact L.
 Qed.
 
@@ -903,7 +1117,7 @@ Theorem leafev_life : forall k rho e st0 id o cx st tr r hit, Rok rho e -> wf2 e
   leafev e st0 id o cx = ((st, tr, r), hit) -> lifeS k rho (key_addr k id) e st0 tr st.
 Proof.
   intros k rho e st0 id o cx st tr r hit R W H.
-  pose proof (proj2 (proj2 (proj2 (life_all k rho (key_addr k id) e R)) st0 id o cx W (fun x => x))) as L.
+  pose proof (proj2 (proj2 (proj2 (life_all k rho (key_addr k id) e (alloc_addr k id) R)) st0 id o cx W (fun x => x))) as L.
   unfold Lgood in L. rewrite H in L. exact L.
 Qed.
 
@@ -917,7 +1131,7 @@ Proof. exact done_nr. Qed.
    id), if k is not stop-reactive, NO operation state of k completes: every running one is still running
    afterwards (r' = r + starts), and only operation states that were completed BEFORE the call are
    destroyed (d = d' + dtors). *)
-Definition rho_key (k : key) (rho : nat -> bool) : bool := match k with KLeaf i => rho i | KSched _ => false end.
+Definition rho_key (k : key) (rho : nat -> bool) : bool := match k with KLeaf i => rho i | _ => false end.
 
 Fixpoint cntx (k : key) (rho : nat -> bool) (a : xact) (tr : list tev) : nat :=
   match tr with
@@ -933,8 +1147,8 @@ Lemma no_touchC : forall k rho t, rho_key k rho = false -> ev_xact k rho t <> So
 Proof.
   intros k rho t H. destruct t; simpl; try discriminate;
     try (destruct (lkb k id) eqn:E; try discriminate);
-    try (destruct (skb k c); discriminate).
-  destruct k as [i|c]; simpl in *; try discriminate. apply Nat.eqb_eq in E. subst. rewrite H. discriminate.
+    try (destruct (skb k c); discriminate); try (destruct (akb k a); discriminate).
+  destruct k as [i|c|a]; simpl in *; try discriminate. apply Nat.eqb_eq in E. subst. rewrite H. discriminate.
 Qed.
 
 Theorem no_completion_unaddressed : forall k m rho r d tr r' d' p',
@@ -977,11 +1191,29 @@ Proof. induction n; simpl; auto. Qed.
 
 (* is the script event addressed to key k?  EvRun c is addressed like the item it dequeues *)
 Definition step_ext (k : key) (rs : run_state) (ev : sev) : bool :=
+  is_alloc k ||
   match ev with
   | EvLeaf id _ _ => key_addr k id
   | EvStop _ => false
   | EvRun c => match dequeue c (r_queue rs) with Some (id, _) => key_addr k id | None => false end
   end.
+
+Lemma ext_alloc : forall k x, is_alloc k = true -> is_alloc k || x = true.
+Proof. intros k x H. rewrite H. reflexivity. Qed.
+
+Lemma ext_addr : forall k id, key_addr k id = true -> is_alloc k || key_addr k id = true.
+Proof. intros k id H. rewrite H. apply orb_true_r. Qed.
+
+(* [sim] (the stop request recorded in a completed allocate) does not change what the automata read *)
+Lemma sim_cnt : forall k e st st', sim e st st' -> nr k e st' = nr k e st /\ nd k e st' = nd k e st.
+Proof.
+  intros k. induction e as [v|x| |n|id|id|id c|id lvl| |id|kk s IHs|kk a IHa b IHb]; intros st st' [->|S]; auto;
+    simpl in S; try contradiction.
+  destruct kk; try contradiction. destruct st as [| |ns sc sx| |]; try contradiction.
+  destruct sx; try contradiction. destruct st' as [| |ns' sc' sx'| |]; try contradiction.
+  destruct sx'; try contradiction. destruct S as (E & S). destruct (IHs _ _ S) as (A & B). simpl.
+  rewrite A, B, E. auto.
+Qed.
 
 Definition step_ok (k : key) (e : sexpr) (ext : bool) (rs rs' : run_state) : Prop :=
   exists suf, r_tr rs' = r_tr rs ++ suf /\
@@ -1000,27 +1232,33 @@ Proof. intros. exists [XSkip]. split; [reflexivity|]. simpl. apply Q_nil. Qed.
 
 Lemma run_ev_step : forall k e rs ev, RInv2 e rs -> step_ok k e (step_ext k rs ev) rs (run_ev e rs ev).
 Proof.
-  intros k e rs ev [(H0 & Hw)|(H1 & Hf)].
-  - destruct ev as [id o cx|cx|c]; simpl.
-    + pose proof (proj2 (proj2 (proj2 (life_all k (rho_of e) (key_addr k id) e (rho_of_ok e))) _ id o cx Hw (fun x => x))) as G.
+  assert (FIN : forall k e ext rs ev, done_st e (r_st rs) -> step_ok k e ext rs (run_ev e rs ev)).
+  { intros k e ext rs ev Hf. destruct (run_ev_fin e rs ev Hf) as (S & _ & _ & C). unfold step_ok.
+    destruct (sim_cnt k e _ _ S) as (A & B). rewrite A, B.
+    destruct C as [C|C]; rewrite C.
+    + exists []. split; [rewrite app_nil_r; reflexivity|apply Q_nil].
+    + exists [XSkip]. split; [reflexivity|apply Q_nil]. }
+  intros k e rs ev [(H0 & C0 & Hw)|[(H1 & Hf)|(H0 & C0 & Hf)]].
+  - unfold step_ext. destruct ev as [id o cx|cx|c]; simpl.
+    + pose proof (proj2 (proj2 (proj2 (life_all k (rho_of e) (is_alloc k || key_addr k id) e (ext_alloc k _) (rho_of_ok e)))
+                   _ id o cx Hw (ext_addr k id))) as G.
       destruct (leafev e (r_st rs) id o cx) as [r hit]. simpl in G.
       destruct hit; [apply absorb_step; assumption|apply skip_step].
     + destruct (r_stopped rs); [apply skip_step|].
-      apply (absorb_step k e false {| r_st := r_st rs; r_stopped := true; r_roots := r_roots rs; r_tr := r_tr rs;
+      apply (absorb_step k e (is_alloc k || false) {| r_st := r_st rs; r_stopped := true; r_roots := r_roots rs; r_tr := r_tr rs;
                                       r_queue := r_queue rs |}).
-      simpl. apply (proj2 (life_all k (rho_of e) false e (rho_of_ok e))). exact Hw.
+      simpl. apply (proj2 (life_all k (rho_of e) (is_alloc k || false) e (ext_alloc k _) (rho_of_ok e))). exact Hw.
     + destruct (dequeue c (r_queue rs)) as [[id q']|]; [|apply skip_step].
-      pose proof (proj2 (proj2 (proj2 (life_all k (rho_of e) (key_addr k id) e (rho_of_ok e))) _ id (OVal 0%Z) c Hw (fun x => x))) as G.
+      pose proof (proj2 (proj2 (proj2 (life_all k (rho_of e) (is_alloc k || key_addr k id) e (ext_alloc k _) (rho_of_ok e)))
+                   _ id (OVal 0%Z) c Hw (ext_addr k id))) as G.
       destruct (leafev e (r_st rs) id (OVal 0%Z) c) as [r hit]. simpl in G.
       destruct hit.
-      * apply (absorb_step k e (key_addr k id) {| r_st := r_st rs; r_stopped := r_stopped rs; r_roots := r_roots rs;
-                                                   r_tr := r_tr rs; r_queue := q' |}). exact G.
-      * apply (skip_step k e (key_addr k id) {| r_st := r_st rs; r_stopped := r_stopped rs; r_roots := r_roots rs;
-                                                 r_tr := r_tr rs; r_queue := q' |}).
-  - destruct (run_ev_fin e rs ev (done_inert _ _ Hf)) as (A & _ & C). unfold step_ok. rewrite A.
-    destruct C as [C|C]; rewrite C.
-    + exists []. split; [rewrite app_nil_r; reflexivity|apply Q_nil].
-    + exists [XSkip]. split; [reflexivity|apply Q_nil].
+      * apply (absorb_step k e _ {| r_st := r_st rs; r_stopped := r_stopped rs; r_roots := r_roots rs;
+                                    r_tr := r_tr rs; r_queue := q' |}). exact G.
+      * apply (skip_step k e _ {| r_st := r_st rs; r_stopped := r_stopped rs; r_roots := r_roots rs;
+                                  r_tr := r_tr rs; r_queue := q' |}).
+  - apply FIN. exact Hf.
+  - apply FIN. rewrite Hf. apply done_fin.
 Qed.
 
 (* (a) never early, per script event: the events the model emits for one script event take every key's
@@ -1034,15 +1272,19 @@ Proof.
 Qed.
 
 Theorem C02_step_start : forall k e pre,
-  lifeQ k (cap k e) (rho_of e) false 0 0 (tevs (r_tr (run e pre [])))
+  lifeQ k (cap k e) (rho_of e) (is_alloc k) 0 0 (tevs (r_tr (run e pre [])))
         (nr k e (r_st (run e pre []))) (nd k e (r_st (run e pre []))).
 Proof.
-  intros k e pre. unfold run. simpl. unfold run_start.
-  pose proof (proj2 (proj1 (life_all k (rho_of e) false e (rho_of_ok e)) (root_env pre) 0%nat)) as L.
-  unfold Lgood, lifeS in L. rewrite nr_fin, nd_fin in L.
-  destruct (start e (root_env pre) 0%nat) as [[st tr] [o|]]; simpl in *.
-  - rewrite tevs_app, tevs_XT. simpl. rewrite app_nil_r. exact L.
-  - rewrite tevs_XT. exact L.
+  intros k e pre. unfold run. simpl. unfold run_start. destruct (cthrows e) eqn:C.
+  - (* [stage 5] the root connect threw: the blocks taken were all returned, nothing else happened *)
+    simpl. rewrite tevs_app, tevs_XT. simpl. rewrite app_nil_r, nr_fin, nd_fin.
+    pose proof (conn_life k (rho_of e) (is_alloc k) (fun x => x) e 0 (cap k e) 0 0) as L.
+    rewrite conn_throws, C in L. exact L.
+  - pose proof (proj2 (proj1 (life_all k (rho_of e) (is_alloc k) e (fun x => x) (rho_of_ok e)) (root_env pre) 0%nat)) as L.
+    unfold Lgood, lifeS in L. rewrite nr_fin, nd_fin in L.
+    destruct (start e (root_env pre) 0%nat) as [[st tr] [o|]]; simpl in *.
+    + rewrite tevs_app, tevs_XT. simpl. rewrite app_nil_r. exact L.
+    + rewrite tevs_XT. exact L.
 Qed.
 
 (* ---- whole traces (coarse automaton) ---- *)
@@ -1072,7 +1314,7 @@ Theorem C02_life : forall k e pre script,
 Proof.
   intros k e pre script. cbv zeta. rewrite exec_run.
   pose proof (run_LInv k e pre script) as I. unfold LInv in I.
-  destruct (run_inv e pre script) as ([(H & W)|(H & F)] & _); unfold run_end; rewrite H; [exact I|].
+  destruct (run_inv e pre script) as ([(H & _ & W)|[(H & F)|(H & _ & F)]] & _); unfold run_end; rewrite H; try exact I.
   simpl. rewrite tevs_app. simpl. rewrite tevs_XT, nr_fin, nd_fin.
   eapply life_app; [exact I|]. pose proof (lifeS_dtor k (rho_of e) false e _ F) as D. unfold lifeS in D.
   rewrite nr_fin, nd_fin in D. eapply Q_coarse. exact D.
@@ -1080,13 +1322,15 @@ Qed.
 
 (* (d) nothing leaked: when the root completed, the run ends with every operation state destroyed *)
 Theorem C02_all_destroyed_at_end : forall k e pre script,
-  r_roots (exec e pre script) = 1%nat ->
+  r_roots (exec e pre script) = 1%nat \/ cthrows e = true ->
   r_st (exec e pre script) = OFin /\
   life k (cap k e) 0 0 (tevs (r_tr (exec e pre script))) 0 0.
 Proof.
   intros k e pre script H.
   assert (r_st (exec e pre script) = OFin) as F.
-  { rewrite exec_run, run_end_st. rewrite exec_run, run_end_roots in H. rewrite H. reflexivity. }
+  { destruct H as [H|H].
+    - rewrite exec_run, run_end_st. rewrite exec_run, run_end_roots in H. rewrite H. reflexivity.
+    - destruct (C01_2_connect_throw e pre script H) as (E & _ & F & _). rewrite E. exact F. }
   split; [exact F|]. pose proof (C02_life k e pre script) as L. cbv zeta in L.
   rewrite F, nr_fin, nd_fin in L. exact L.
 Qed.
@@ -1146,27 +1390,30 @@ Qed.
 Lemma life_head : forall k m r d tr r' d', life k m r d tr r' d' ->
   forall t q, tr = t :: q ->
   match ev_act k t with
-  | Some AStart => r + d < m
+  | Some AStart => r + d < m \/ is_alloc k = true
   | Some ATouch => 1 <= r
   | Some ADtor => 1 <= r + d
   | None => True
   end.
 Proof.
   intros k m r d tr r' d' H. induction H; intros t0 q E; try discriminate.
-  - specialize (IHlife t0 q E). destruct (ev_act k t0) as [[| |]|]; auto; lia.
+  - specialize (IHlife t0 q E). destruct (ev_act k t0) as [[| |]|]; auto; try lia.
+    destruct IHlife; [left; lia|right; assumption].
   - inversion E; subst. rewrite H. assumption.
   - inversion E; subst. rewrite H. lia.
   - inversion E; subst. rewrite H. lia.
   - inversion E; subst. rewrite H. exact I.
 Qed.
 
-(* at every point of a legal trace (from nothing alive): destroyed <= started <= destroyed + capacity *)
+(* at every point of a legal trace (from nothing alive): destroyed <= started <= destroyed + capacity
+   ([stage 5] no capacity for the blocks of an allocator) *)
 Theorem life_prefix_counts : forall k m tr r' d', life k m 0 0 tr r' d' ->
   forall p q, tr = p ++ q ->
-  cnt k ADtor p <= cnt k AStart p /\ cnt k AStart p <= cnt k ADtor p + m.
+  cnt k ADtor p <= cnt k AStart p /\ (is_alloc k = false -> cnt k AStart p <= cnt k ADtor p + m).
 Proof.
   intros k m tr r' d' H p q E. destruct (life_split _ _ _ _ _ _ _ H p q E) as (r1 & d1 & A & _).
-  pose proof (life_balance _ _ _ _ _ _ _ A) as B. pose proof (life_bound _ _ _ _ _ _ _ A) as C.
+  pose proof (life_balance _ _ _ _ _ _ _ A) as B. split; [lia|]. intros NA.
+  pose proof (life_bound _ _ _ _ _ _ _ A NA) as C.
   assert (r1 + d1 <= m) by (apply C; lia). lia.
 Qed.
 
@@ -1177,7 +1424,7 @@ Qed.
 Theorem life_at_event : forall k m tr r' d', life k m 0 0 tr r' d' ->
   forall p t q, tr = p ++ t :: q ->
   match ev_act k t with
-  | Some AStart => cnt k AStart p < cnt k ADtor p + m
+  | Some AStart => cnt k AStart p < cnt k ADtor p + m \/ is_alloc k = true
   | Some ATouch => cnt k ADtor p < cnt k AStart p
   | Some ADtor => cnt k ADtor p < cnt k AStart p
   | None => True
@@ -1185,7 +1432,7 @@ Theorem life_at_event : forall k m tr r' d', life k m 0 0 tr r' d' ->
 Proof.
   intros k m tr r' d' H p t q E. destruct (life_split _ _ _ _ _ _ _ H p (t :: q) E) as (r1 & d1 & A & B).
   pose proof (life_balance _ _ _ _ _ _ _ A) as Bal. pose proof (life_head _ _ _ _ _ _ _ B t q eq_refl) as Hd.
-  destruct (ev_act k t) as [[| |]|]; auto; lia.
+  destruct (ev_act k t) as [[| |]|]; auto; try lia. destruct Hd; [left; lia|right; assumption].
 Qed.
 
 (* with unique leaf ids the capacity of a leaf key is at most 1 *)
@@ -1193,8 +1440,9 @@ Lemma cap_leaf_count : forall id e, cap (KLeaf id) e = count_occ Nat.eq_dec (lea
 Proof.
   assert (L : forall id id', lk (KLeaf id) id' = count_occ Nat.eq_dec [id'] id).
   { intros. unfold lk. simpl. destruct (Nat.eq_dec id' id); destruct (Nat.eqb_spec id id'); congruence. }
-  induction e as [v|x| |n|id'|id'|id' c|id' lvl| |kk s IHs|kk a IHa b IHb]; try (apply L); simpl; auto.
-  rewrite count_occ_app. congruence.
+  induction e as [v|x| |n|id'|id'|id' c|id' lvl| |id'|kk s IHs|kk a IHa b IHb]; try (apply L); simpl; auto.
+  - destruct kk; simpl; exact IHs.
+  - rewrite count_occ_app. congruence.
 Qed.
 
 Lemma cap_nodup : forall id e, NoDup (leaf_ids e) -> cap (KLeaf id) e <= 1.
@@ -1213,7 +1461,7 @@ Theorem C02_dtor_at_most_once : forall e pre script id p q,
 Proof.
   intros e pre script id p q ND E.
   destruct (life_prefix_counts _ _ _ _ _ (C02_life (KLeaf id) e pre script) p q E) as (A & B).
-  pose proof (cap_nodup id e ND). lia.
+  pose proof (cap_nodup id e ND). specialize (B eq_refl). lia.
 Qed.
 
 (* (a)(c) what holds when an event of leaf id is emitted (unique leaf ids):
@@ -1233,7 +1481,8 @@ Proof.
   intros e pre script id p t q ND E.
   pose proof (life_at_event _ _ _ _ _ (C02_life (KLeaf id) e pre script) p t q E) as A.
   destruct (C02_dtor_at_most_once e pre script id p (t :: q) ND E) as (B & C).
-  pose proof (cap_nodup id e ND). destruct (ev_act (KLeaf id) t) as [[| |]|]; auto; lia.
+  pose proof (cap_nodup id e ND). destruct (ev_act (KLeaf id) t) as [[| |]|]; auto; try lia.
+  destruct A as [A|A]; [lia|discriminate A].
 Qed.
 
 (* the same for schedule() operations of one context (their destruction event carries only the context):
@@ -1247,14 +1496,15 @@ Theorem C02_sched : forall e pre script c,
      cnt (KSched c) ADtor p < cnt (KSched c) AStart p).
 Proof.
   intros e pre script c. split.
-  - intros p q E. exact (life_prefix_counts _ _ _ _ _ (C02_life (KSched c) e pre script) p q E).
+  - intros p q E. destruct (life_prefix_counts _ _ _ _ _ (C02_life (KSched c) e pre script) p q E) as (A & B).
+    split; [exact A|exact (B eq_refl)].
   - intros p q E. pose proof (life_at_event _ _ _ _ _ (C02_life (KSched c) e pre script) p _ q E) as A.
     simpl in A. rewrite Nat.eqb_refl in A. exact A.
 Qed.
 
 (* (d) nothing leaked: if the root completed, every started operation state of every key was destroyed *)
 Theorem C02_balanced_at_end : forall k e pre script,
-  r_roots (exec e pre script) = 1%nat ->
+  r_roots (exec e pre script) = 1%nat \/ cthrows e = true ->
   cnt k AStart (tevs (r_tr (exec e pre script))) = cnt k ADtor (tevs (r_tr (exec e pre script))).
 Proof.
   intros k e pre script H. destruct (C02_all_destroyed_at_end k e pre script H) as (_ & L).
@@ -1263,13 +1513,16 @@ Qed.
 
 (* (e) the shape of the run-level trace *)
 Definition plain_x (x : xev) : Prop := match x with XT _ => True | XSkip => True | _ => False end.
-Definition is_dtor_ev (t : tev) : Prop := match t with TLeafDtor _ => True | TSchedDtor _ => True | _ => False end.
+Definition is_dtor_ev (t : tev) : Prop :=
+  match t with TLeafDtor _ => True | TSchedDtor _ => True | TFree _ => True | _ => False end.
 
 Lemma dtor_only_dtors : forall e st, Forall is_dtor_ev (dtor e st).
 Proof.
-  induction e as [v|x| |n|id|id|id c|id lvl| |kk s IHs|kk a IHa b IHb]; intros st;
-    destruct st as [|cc sn|ns sa sb|sa sb|v']; simpl; repeat constructor; auto;
-    destruct (dtor_b_first kk); apply Forall_app; auto.
+  induction e as [v|x| |n|id|id|id c|id lvl| |id|kk s IHs|kk a IHa b IHb]; intros st;
+    destruct st as [|cc sn|ns sa sb|sa sb|v']; try destruct kk; simpl;
+    repeat first [ apply Forall_nil | apply IHs | apply IHa | apply IHb
+                 | apply Forall_cons; [exact I|]
+                 | apply Forall_app; split ].
 Qed.
 
 Definition SInv (rs : run_state) : Prop :=
@@ -1296,9 +1549,9 @@ Proof.
     rewrite E, <- app_assoc. simpl. rewrite repeat_cons. reflexivity.
 Qed.
 
-Lemma run_ev_SInv : forall e rs ev, RInv2 e rs -> SInv rs -> SInv (run_ev e rs ev).
+Lemma run_ev_SInv : forall e rs ev, cthrows e = false -> RInv2 e rs -> SInv rs -> SInv (run_ev e rs ev).
 Proof.
-  intros e rs ev [(H0 & Hw)|(H1 & Hf)] S.
+  intros e rs ev CT [(H0 & _ & Hw)|[(H1 & Hf)|(_ & C & _)]] S; [| |congruence].
   - destruct ev as [id o cx|cx|c]; simpl.
     + destruct (leafev e (r_st rs) id o cx) as [r hit].
       destruct hit; [apply absorb_SInv; assumption|apply skip_SInv; assumption].
@@ -1307,42 +1560,51 @@ Proof.
       destruct (leafev e (r_st rs) id (OVal 0%Z) c) as [r hit].
       destruct hit; [apply absorb_SInv; assumption|apply (skip_SInv {| r_st := r_st rs; r_stopped := r_stopped rs;
         r_roots := r_roots rs; r_tr := r_tr rs; r_queue := q' |}); assumption].
-  - destruct (run_ev_fin e rs ev (done_inert _ _ Hf)) as (_ & B & C). unfold SInv in *. rewrite B.
+  - destruct (run_ev_fin e rs ev Hf) as (_ & _ & B & C). unfold SInv in *. rewrite B.
     destruct C as [C|C]; rewrite C; [exact S|]. rewrite H1 in *.
     destruct S as (p & o & n0 & cx & j & E & P). exists p, o, n0, cx, (S j). split; [|exact P].
     rewrite E, <- app_assoc. simpl. rewrite repeat_cons. reflexivity.
 Qed.
 
-Lemma run_SInv : forall e pre script, SInv (run e pre script).
+Lemma run_SInv : forall e pre script, cthrows e = false -> SInv (run e pre script).
 Proof.
-  intros e pre script. unfold run.
+  intros e pre script CT. unfold run.
   assert (forall rs, RInv2 e rs -> SInv rs -> SInv (fold_left (run_ev e) script rs)) as F.
   { induction script as [|ev script IH]; simpl; intros rs R S; [exact S|].
     apply IH; [apply run_ev_RInv; exact R|apply run_ev_SInv; assumption]. }
-  apply F; [apply run_start_RInv|]. unfold run_start. apply absorb_SInv; [reflexivity|].
+  apply F; [apply run_start_RInv|]. unfold run_start. rewrite CT. apply absorb_SInv; [reflexivity|].
   unfold SInv. simpl. constructor.
 Qed.
 
 (* the root completes once ([XRoot]); after it there are only skipped script events, then the owner's
-   [XRootDtor], then nothing but destruction events; before it neither XRoot nor XRootDtor.  If the root
-   did not complete its operation state is not destroyed (it is still running). *)
+   [XRootDtor], then nothing but destruction events (operation states, [stage 5] blocks); before it neither
+   XRoot nor XRootDtor.  If the root did not complete its operation state is not destroyed (it is still
+   running).  [stage 5] If connecting the expression threw there is only the connect (blocks taken and
+   returned), XConnectThrow and skipped script events. *)
 Theorem C02_root_dtor_last : forall e pre script,
   (r_roots (exec e pre script) = 1%nat ->
    exists p o n cx j,
      r_tr (exec e pre script) =
        p ++ XRoot o n cx :: repeat XSkip j ++ XRootDtor :: map XT (dtor e (r_st (run e pre script))) /\
      Forall plain_x p /\ Forall is_dtor_ev (dtor e (r_st (run e pre script)))) /\
-  (r_roots (exec e pre script) = 0%nat -> Forall plain_x (r_tr (exec e pre script))).
+  (r_roots (exec e pre script) = 0%nat -> cthrows e = false -> Forall plain_x (r_tr (exec e pre script))) /\
+  (cthrows e = true -> exists j, r_tr (exec e pre script) = map XT (fst (conn e 0)) ++ XConnectThrow :: repeat XSkip j).
 Proof.
-  intros e pre script. rewrite exec_run, run_end_roots, run_end_tr.
-  pose proof (run_SInv e pre script) as S. unfold SInv in S. split; intros H; rewrite H in *.
-  - destruct S as (p & o & n0 & cx & j & E & P). exists p, o, n0, cx, j. split; [|split].
-    + rewrite E, <- app_assoc. reflexivity.
-    + exact P.
-    + apply dtor_only_dtors.
-  - rewrite app_nil_r. exact S.
+  intros e pre script. split; [|split].
+  - intros H. destruct (cthrows e) eqn:CT.
+    + destruct (C01_2_connect_throw e pre script CT) as (E & R0 & _). rewrite E in H. congruence.
+    + rewrite exec_run, run_end_roots in H. rewrite exec_run, run_end_tr.
+      pose proof (run_SInv e pre script CT) as S. unfold SInv in S. rewrite H in *.
+      destruct S as (p & o & n0 & cx & j & E & P). exists p, o, n0, cx, j. split; [|split].
+      * rewrite E, <- app_assoc. reflexivity.
+      * exact P.
+      * apply dtor_only_dtors.
+  - intros H CT. rewrite exec_run, run_end_roots in H. rewrite exec_run, run_end_tr.
+    pose proof (run_SInv e pre script CT) as S. unfold SInv in S. rewrite H in *.
+    rewrite app_nil_r. exact S.
+  - intros CT. destruct (C01_2_connect_throw e pre script CT) as (E & _ & _ & n & _ & T). rewrite E.
+    exists n. exact T.
 Qed.
-
 
 (* ------------------------------------------------------------------------------------------------ *)
 (* (a) never early, in terms of the model state                                                     *)
@@ -1380,11 +1642,11 @@ Qed.
 
 (* the same for the start() call: nothing of a non-reactive key completes, nothing of it is destroyed *)
 Theorem C02_start_no_completion : forall k e pre,
-  rho_key k (rho_of e) = false ->
+  rho_key k (rho_of e) = false -> is_alloc k = false ->
   nr k e (r_st (run e pre [])) = cnt k AStart (tevs (r_tr (run e pre []))) /\
   nd k e (r_st (run e pre [])) = 0 /\ cnt k ADtor (tevs (r_tr (run e pre []))) = 0.
 Proof.
-  intros k e pre R. destruct (C02_step_start k e pre 0) as (p' & A).
+  intros k e pre R NA. pose proof (C02_step_start k e pre) as L. rewrite NA in L. destruct (L 0) as (p' & A).
   destruct (no_completion_unaddressed _ _ _ _ _ _ _ _ _ A R) as (B & C).
   rewrite cntx_start in B. rewrite cntx_dtor in C. lia.
 Qed.
@@ -1398,3 +1660,72 @@ Qed.
 
 Lemma rho_of_sched : forall e c, rho_key (KSched c) (rho_of e) = false.
 Proof. reflexivity. Qed.
+
+(* ------------------------------------------------------------------------------------------------ *)
+(* [stage 5] blocks: taken from and returned to the allocator visible at the allocate node          *)
+(* ------------------------------------------------------------------------------------------------ *)
+
+Fixpoint nalloc (a : nat) (tr : list tev) : nat :=
+  match tr with
+  | [] => 0
+  | TAlloc a' :: r => (if Nat.eqb a a' then 1 else 0) + nalloc a r
+  | _ :: r => nalloc a r
+  end.
+Fixpoint nfree (a : nat) (tr : list tev) : nat :=
+  match tr with
+  | [] => 0
+  | TFree a' :: r => (if Nat.eqb a a' then 1 else 0) + nfree a r
+  | _ :: r => nfree a r
+  end.
+
+Lemma nalloc_cnt : forall a tr, nalloc a tr = cnt (KAlloc a) AStart tr.
+Proof.
+  induction tr as [|t tr IH]; simpl; [reflexivity|]. rewrite IH. unfold is_act.
+  destruct t; simpl; try reflexivity; destruct (Nat.eqb a a0); reflexivity.
+Qed.
+
+Lemma nfree_cnt : forall a tr, nfree a tr = cnt (KAlloc a) ADtor tr.
+Proof.
+  induction tr as [|t tr IH]; simpl; [reflexivity|]. rewrite IH. unfold is_act.
+  destruct t; simpl; try reflexivity; destruct (Nat.eqb a a0); reflexivity.
+Qed.
+
+(* for every allocator: never more blocks returned than taken, and when the root completed (and its operation
+   was destroyed) or the root connect threw, every block taken was returned to the same allocator *)
+Theorem C02_blocks_balanced : forall e pre script a,
+  (forall p q, tevs (r_tr (exec e pre script)) = p ++ q -> nfree a p <= nalloc a p) /\
+  (r_roots (exec e pre script) = 1%nat \/ cthrows e = true ->
+   nfree a (tevs (r_tr (exec e pre script))) = nalloc a (tevs (r_tr (exec e pre script)))).
+Proof.
+  intros e pre script a. split.
+  - intros p q E. rewrite nfree_cnt, nalloc_cnt.
+    exact (proj1 (life_prefix_counts _ _ _ _ _ (C02_life (KAlloc a) e pre script) p q E)).
+  - intros H. rewrite nfree_cnt, nalloc_cnt. symmetry. apply C02_balanced_at_end. exact H.
+Qed.
+
+(* which allocator: allocate takes its block from get_allocator of the receiver it is connected to (e_alloc of
+   the environment it is started in) and keeps that environment in its node state; its destructor returns the
+   block to e_alloc of the stored environment; only with_allocator changes e_alloc; the root answers 0 *)
+Theorem alloc_start_id : forall s en cx, sthrows (Un UAllocate s) = false ->
+  exists sc tr0 r, start (Un UAllocate s) en cx = (ONode (mk_nst PFirst en) sc OFin, TAlloc (e_alloc en) :: tr0, r).
+Proof.
+  intros s en cx H. simpl. rewrite H. destruct (start s _ cx) as [[sc tr0] [o|]]; simpl;
+    eexists _, _, _; reflexivity.
+Qed.
+
+Theorem alloc_dtor_id : forall s ns sc x, dtor (Un UAllocate s) (ONode ns sc x) = dtor s sc ++ [TFree (e_alloc (n_env ns))].
+Proof. reflexivity. Qed.
+
+Theorem alloc_conn_id : forall s al, exists tr, fst (conn (Un UAllocate s) al) = TAlloc al :: tr.
+Proof. intros s al. simpl. destruct (conn s al) as [tr th]. eexists; reflexivity. Qed.
+
+Theorem un_env_alloc : forall kk en,
+  e_alloc (un_env kk en) = match kk with UWithAlloc a => a | _ => e_alloc en end.
+Proof. intros kk en. destruct kk; try reflexivity. destruct q; reflexivity. Qed.
+
+Theorem env_alloc_kept : forall en b v,
+  e_alloc (env_with_stop en b) = e_alloc en /\ e_alloc (env_bind en v) = e_alloc en /\
+  e_alloc (env_own en b) = e_alloc en /\ e_alloc (root_env b) = 0.
+Proof. intros. repeat split. Qed.
+
+(* a stop request does not change the allocator stored in a node (all node-state updates keep e_alloc) *)
